@@ -8,3 +8,5 @@ import "verif/harness/internal/core"
 func c01WithMapOrders(c *core.Ctx, dir string, k c01Case) { c01InprocOrder(c, dir, k) }
 
 func setProcOrder(spec string, on bool) {}
+
+func procCalls() int64 { return 0 }
